@@ -1,8 +1,10 @@
 #!/bin/bash
-# usage: seedbatch.sh CNN [extra checks comma separated]  -- evaluates /tmp/seeds/seed-cNN-* and prints a summary
-id=$1; low=$(echo $id | tr A-Z a-z); extra=$2
-for d in /tmp/seeds/seed-$low-*; do
+# usage: seedbatch.sh CNN [extra checks comma separated] [base dir, default /tmp/seeds]
+# evaluates <base>/seed-cNN-* that have no eval.json yet and prints a summary line per seed
+id=$1; low=$(echo $id | tr A-Z a-z); extra=$2; base=${3:-/tmp/seeds}
+for d in $base/seed-$low-*; do
   [ -f $d/meta.json ] || continue
+  [ -f $d/eval.json ] && [ -z "$FORCE" ] && continue
   checks=$id; [ -n "$extra" ] && checks=$id,$extra
   python3 /verif/tools/seedeval.py $d --checks $checks > $d/eval.out 2>&1
   python3 - "$d" <<'P'
